@@ -5,6 +5,7 @@ import (
 	"runtime"
 	"strings"
 	"sync"
+	"sync/atomic"
 	"time"
 
 	bigbuff "github.com/joeycumines/go-bigbuff"
@@ -73,6 +74,20 @@ func execWorkers(t *trace, script []string) {
 		})
 		root := rng.New(uint64(seed), "workers-run")
 		var wg sync.WaitGroup
+		// in half of the runs two goroutines keep the pool's mutex contended (Count() takes it): every window that is
+		// opened by an Unlock is then likely to be entered by a waiting Call
+		var polling atomic.Bool
+		tight := seed%2 == 0
+		if tight {
+			polling.Store(true)
+			for p := 0; p < 2; p++ {
+				go func() {
+					for polling.Load() {
+						w.Count()
+					}
+				}()
+			}
+		}
 		job := 0
 		var jmu sync.Mutex
 		stopWaiter := make(chan struct{})
@@ -98,8 +113,10 @@ func execWorkers(t *trace, script []string) {
 					res, err := w.Call(n, func() (interface{}, error) {
 						wg := hk.Gid()
 						log.Add("jobstart %d %d", wg, j)
-						perturb(jr)
-						perturb(jr)
+						if !tight {
+							perturb(jr)
+							perturb(jr)
+						}
 						log.Add("jobend %d %d", wg, j)
 						return j * 10, nil
 					})
@@ -108,7 +125,9 @@ func execWorkers(t *trace, script []string) {
 					} else {
 						log.Add("ret %d %d", j, res.(int))
 					}
-					perturb(r)
+					if !tight || r.Chance(30) {
+						perturb(r)
+					}
 				}
 			}()
 		}
@@ -124,6 +143,7 @@ func execWorkers(t *trace, script []string) {
 			}
 		}()
 		stuck := !waitTimeout(&wg, stepTimeout)
+		polling.Store(false)
 		close(stopWaiter)
 		if !stuck {
 			done := make(chan struct{})
